@@ -4,6 +4,7 @@ Import ListNotations.
 From AV Require Import model.Syntax model.Eval spec.Arith proofs.EvalExact model.Grammar spec.Climb proofs.ClimbProofs proofs.ParseBounded proofs.ParseGeneral proofs.ParseChains proofs.ExprEval.
 From AV Require model.Run proofs.LexExpr proofs.QueryExpr.
 Local Close Scope N_scope.
+Ltac wf_side := cbn; repeat split; intros; try discriminate; try exact I; try tauto; try (repeat constructor; cbn; tauto).
 
 (* The precedence discipline of `operation()` -- a stack of open operations, closed and popped while the operation below binds
    at least as tightly as the new operator -- abstracted from the tree builder (spec/Climb.v). For ANY number of operators and any
@@ -49,11 +50,11 @@ Theorem C06_operation_refines_climb : forall glue body valuef (qs : list nat) (l
   = Some (Some skip_end, mkst b_end (F ++ ritems glue body (climb (Leaf 0, mkin 0 qs)))).
 Proof. exact op_loop_climb. Qed.
 
-(* Instantiated for every expression over numbers, percentages, + - * / ^ **, casts `to <unit word>`, parentheses and function
+(* Instantiated for every expression over numbers, percentages, + - * / ^ **, casts `to <unit expression>`, numbers with units, parentheses and function
    calls f(e1, ..., en) whose arguments are again such expressions, and facts named by one or several words -- any
    number of operators, any depth of nesting, any (or no) blanks between any two tokens and at either end of the query
-   ([wf_expr]: only a unit word must be set off by a blank from a following * / ^ or `to`, which would otherwise be read into
-   the unit): the parser returns, for every token list of that shape, the tree in which each parenthesised group stands on its
+   ([wf_expr]: only a unit expression must be set off by a blank from a following * / ^ or `to`, which would otherwise be read
+   into the unit): the parser returns, for every token list of that shape, the tree in which each parenthesised group stands on its
    own between its parentheses ([trees_operand]) ... *)
 Theorem C06_parse_expression : forall (w0 : blanks) (e : expr) (w1 : blanks), wf_expr e ->
   parse_root (wst w0 ++ toks_expr e ++ wst w1) = Some (trees_expr w0 e ++ wsT w1).
@@ -79,11 +80,11 @@ Theorem C06_expression_value : forall debug facts describe (w0 : blanks) (e : Pa
     agrees r (denote (sem_expr e)).
 Proof. exact expression_value. Qed.
 
-(* Blanks do not matter, with no bound: two query texts of such expressions that differ only in their blanks -- how many, of
+(* Blanks do not matter, with no bound: two query texts of numeric expressions that differ only in their blanks -- how many, of
    which kind, none at all where the lexer lets the token end, also at either end of the query ([skel_expr] forgets them) -- get
    answers that agree with the same exact value (or are both errors where it is undefined). *)
 Theorem C06_blanks_do_not_matter : forall debug describe facts (w0 w1 w0' w1' : blanks) (e e' : ParseChains.expr),
-  QueryExpr.skel_expr e = QueryExpr.skel_expr e' ->
+  QueryExpr.numeric_expr e -> QueryExpr.numeric_expr e' -> QueryExpr.skel_expr e = QueryExpr.skel_expr e' ->
   LexExpr.lexable (wst w0 ++ toks_expr e ++ wst w1) -> LexExpr.lexable (wst w0' ++ toks_expr e' ++ wst w1') ->
   exists r r', Run.query debug describe facts (LexExpr.text_of (wst w0 ++ toks_expr e ++ wst w1)) = ([r], []) /\
                Run.query debug describe facts (LexExpr.text_of (wst w0' ++ toks_expr e' ++ wst w1')) = ([r'], []) /\
@@ -102,7 +103,7 @@ Example C06_expression_example :
              (TCons [] AStar [42%N] [] (Num [52%N]) TNil)) in
   parse_root (wst [[32%N]] ++ toks_expr e ++ wst []) = Some (trees_expr [[32%N]] e ++ wsT []) /\
   length (toks_expr e) = 11.
-Proof. split; [apply parse_expression; cbn; tauto|reflexivity]. Qed.
+Proof. split; [apply parse_expression; wf_side|reflexivity]. Qed.
 
 (* a parenthesised group and a function argument are parsed on their own: "2*f(1+2 , 3)" with its blanks *)
 Example C06_call_example :
@@ -110,23 +111,32 @@ Example C06_call_example :
   let e := Chain (Num [50%N]) (TCons [] AStar [42%N] []
              (Call [102%N] [40%N] [41%N] (AOne [] arg1 (MComma [[32%N]] [44%N] [[32%N]] (Chain (Num [51%N]) TNil) (MEnd [])))) TNil) in
   parse_root (wst [] ++ toks_expr e ++ wst []) = Some (trees_expr [] e ++ wsT []) /\ length (toks_expr e) = 12.
-Proof. split; [apply parse_expression; cbn; tauto|reflexivity]. Qed.
+Proof. split; [apply parse_expression; wf_side|reflexivity]. Qed.
 
 (* a fact named by several words takes its place as one operand, and the cast applies to it: "mass of earth to g" *)
 Example C06_fact_example :
   let e := Chain (Fact [109%N; 97%N; 115%N; 115%N] [([[32%N]], false, [111%N; 102%N]); ([[32%N]], false, [101%N; 97%N; 114%N; 116%N; 104%N])])
-             (TTo [[32%N]] [116%N; 111%N] [[32%N]] [103%N] TNil) in
+             (TTo [[32%N]] [116%N; 111%N] [[32%N]] (((WORD, [103%N]), []), []) TNil) in
   parse_root (wst [] ++ toks_expr e ++ wst []) = Some (trees_expr [] e ++ wsT []) /\
   trees_expr [] e = [Grammar.Node OPERATION
      [Grammar.Node SENTENCE [Grammar.Node WORD [Tok WORD [109%N; 97%N; 115%N; 115%N]]; Tok WHITESPACE [32%N]; Grammar.Node WORD [Tok WORD [111%N; 102%N]];
                              Tok WHITESPACE [32%N]; Grammar.Node WORD [Tok WORD [101%N; 97%N; 114%N; 116%N; 104%N]]];
       Tok WHITESPACE [32%N]; Grammar.Node OP_CAST [Tok TO [116%N; 111%N]]; Tok WHITESPACE [32%N];
       Grammar.Node UNIT [Grammar.Node WORD [Tok WORD [103%N]]]]].
-Proof. split; [apply parse_expression; cbn; tauto|reflexivity]. Qed.
+Proof. split; [apply parse_expression; wf_side|reflexivity]. Qed.
+
+(* quantities with compound units: "3 km/hr*2 to m/s" -- the tight *2 belongs to the unit, as unit() reads it; written with a
+   blank before the operator it is a product *)
+Example C06_unit_example :
+  let kmhr : uast := (((WORD, [107%N; 109%N]), [(SLASH, [47%N]); (WORD, [104%N; 114%N])]), []) in
+  let ms : uast := (((WORD, [109%N]), [(SLASH, [47%N]); (WORD, [115%N])]), []) in
+  let e := Chain (NumU [51%N] [[32%N]] kmhr) (TCons [[32%N]] AStar [42%N] [[32%N]] (Num [50%N]) (TTo [[32%N]] [116%N; 111%N] [[32%N]] ms TNil)) in
+  parse_root (wst [] ++ toks_expr e ++ wst []) = Some (trees_expr [] e ++ wsT []) /\ length (toks_expr e) = 15.
+Proof. split; [apply parse_expression; wf_side|reflexivity]. Qed.
 
 (* `to` binds loosest: "1 to m + 2" is read as 1 to (m + 2), one cast whose right side is the sum *)
 Example C06_cast_example :
-  canon levels4 (Leaf 0, mkin 0 (prios (TTo [[32%N]] [116%N; 111%N] [[32%N]] [109%N] (TCons [[32%N]] APlus [43%N] [[32%N]] (Num [50%N]) TNil))))
+  canon levels4 (Leaf 0, mkin 0 (prios (TTo [[32%N]] [116%N; 111%N] [[32%N]] (((WORD, [109%N]), []), []) (TCons [[32%N]] APlus [43%N] [[32%N]] (Num [50%N]) TNil))))
   = Climb.Node (Leaf 0) [((1, 1), Climb.Node (Leaf 1) [((2, 2), Leaf 2)])].
 Proof. reflexivity. Qed.
 
